@@ -44,6 +44,11 @@ CLAIMED = {
    text="Decides the structure that ties map, list and results together: exactly Add, Get and GetOldest reach the list's move primitive and move the entry they found (AG1); in every remover the key deleted from the map, the node unlinked from the list and the key/value returned derive from one origin, oldest = root.prev, youngest = root.next, front operations anchor at &root (AG7); map and list change in pairs; every path of Add after the insertion reaches count > size whose true edge evicts through RemoveOldest and returns its result (PT2/PT3); NewLRU rejects size <= 0 and size is written nowhere else; list length bookkeeping (AG4). The recency order of concrete histories is not decided.",
    note="Trusted: go/ssa; access paths are compared syntactically after inlining pure accessors, with a no-intervening-list-write side condition per rule.",
    ref="DESIGN.md section 3 E7, section 4 C07"),
+ "C09": dict(
+   technique="flag-consulted-by-every-reader, descent-direction agreement and counter-discipline rules (edge dominance, edge-cut reachability, finite order atoms) on go/ssa over trie/trie.go",
+   text="Decides necessary conditions of the map/prefix behaviour: every site that reports a key tests isValid on the node it reports and isValid is written only at the key's last byte (AG2); the key counter is incremented only through an absence edge of a lookup of the inserted key and no insertion bypasses it except through isValid true (AG4); put/get/LongestPrefix agree on left/right/mid for smaller/greater/equal bytes and on depth advance, collect visits left, self, mid, right (AG3); the stored byte is appended unaltered, never through an integer-to-string conversion, and LongestPrefix returns query[:length] (AG8/PV1); every key index is dominated by a length test, empty input is rejected, lookups do not write (PT3/EF1). Results for concrete key sets are not decided.",
+   note="Trusted: go/ssa; get's (nil, err)/(node, nil) contract; Put's non-empty-key precondition.",
+   ref="DESIGN.md section 3 E7, section 4 C09"),
 }
 
 NOT_YET = "check not built yet (static-analysis engines under construction; see DESIGN.md section 7)"
